@@ -95,7 +95,7 @@ func engineRules(rng *rand.Rand, npat int) (rules string, groups []egroup, pats 
 	}
 	// every group matches calls of its own function p<gi>(...): within one node the first accepting rule wins,
 	// so groups must not compete for a node
-	var rb strings.Builder
+	var rb, consts strings.Builder
 	rb.WriteString("package gorules\n\nimport \"github.com/quasilyte/go-ruleguard/dsl\"\n\n")
 	addGroup := func(pred string, neg bool, pat string) {
 		bang := ""
@@ -103,7 +103,23 @@ func engineRules(rng *rand.Rand, npat int) (rules string, groups []egroup, pats 
 			bang = "!"
 		}
 		gi := len(groups)
+		// the pattern argument in every spelling a rules file may use: interpreted literal, raw literal, a named constant,
+		// a constant expression -- the predicate must be compiled from the STRING VALUE
 		q := strconv.Quote(pat)
+		switch gi % 4 {
+		case 1:
+			if !strings.Contains(pat, "`") && !strings.Contains(pat, "\r") {
+				q = "`" + pat + "`"
+			}
+		case 2:
+			fmt.Fprintf(&consts, "const pat%d = %s\n", gi, q)
+			q = fmt.Sprintf("pat%d", gi)
+		case 3:
+			rs := []rune(pat)
+			if len(rs) >= 2 {
+				q = strconv.Quote(string(rs[:len(rs)/2])) + " + " + strconv.Quote(string(rs[len(rs)/2:]))
+			}
+		}
 		var cond string
 		switch pred {
 		case "text":
@@ -191,7 +207,7 @@ func engineRules(rng *rand.Rand, npat int) (rules string, groups []egroup, pats 
 			addGroup("whole", neg, p)
 		}
 	}
-	return rb.String(), groups, pats
+	return rb.String() + "\n" + consts.String(), groups, pats
 }
 
 // engineTarget: the file text of one variant. Variant v > 0 has, in every slot, another text of the same length: all node
